@@ -362,6 +362,9 @@ enabled; four rounds get the sender out (with an error) -/
 example : let s := ClientPipe.run ClientPipe.code (ClientPipe.init ClientPipe.code 2) [.wHand, .pExit]
     ClientPipe.code.closeOnExit = true ∧ s.procUp = false ∧ ClientPipe.senderOut s = false ∧ ClientPipe.mu s = 8 ∧
     (ClientPipe.settle ClientPipe.code s 8).failed = true ∧ ClientPipe.senderOut (ClientPipe.settle ClientPipe.code s 8) = true := by decide
+/-- `pipe_steps_terminate` on a concrete step: the copier's EPIPE lowers the measure from 8 to 6 -/
+example : ClientPipe.Ev.cEpipe.internal = true ∧
+    (ClientPipe.step ClientPipe.code (ClientPipe.run ClientPipe.code (ClientPipe.init ClientPipe.code 2) [.wHand, .pExit]) .cEpipe).map ClientPipe.mu = some 6 := by decide
 /-- a client that lives and reads: both writes of a request get through, nothing fails -/
 example : let s := ClientPipe.run ClientPipe.code (ClientPipe.init ClientPipe.code 2) [.wHand, .cPush, .wHand, .cPush, .pRead]
     ClientPipe.senderOut s = true ∧ s.failed = false ∧ s.room = 15 := by decide
